@@ -1,7 +1,10 @@
 mod codes;
 mod hdr;
+mod msg;
 mod name;
 mod nametext;
+mod proj;
+mod rdata;
 mod util;
 
 #[global_allocator]
@@ -15,6 +18,7 @@ fn main() {
         "codes" => codes::run(&a),
         "name" => name::run(&a),
         "nametext" => nametext::run(&a),
+        "rdata" => rdata::run(&a),
         t => {
             eprintln!("unknown topic {t}");
             std::process::exit(2);
